@@ -83,6 +83,7 @@ type SimNode struct {
 	ffDone          bool // has reset itself through fast-forward at least once
 	stalled         bool // reported an insertion error after fast-forward (C13 guard)
 	leaving         bool
+	blocksBeforeFF  int // last block index before the fast-forward in progress
 	viaProxy        bool
 	inproxy         *inmem.InmemProxy
 	txBuf           []byte // the application's submission buffer (reused)
@@ -559,6 +560,60 @@ func (c *Cluster) onDeliver(n *SimNode, d *Delivery) {
 				}
 			}
 			defer func() { c.violations[len(c.violations)-1].Message += extra }()
+			if debugTrace {
+				if other := c.chainBy[idx]; other != nil && other.running() && n.running() {
+					fa, ea := n.core().Hashgraph().Store.GetFrame(d.Block.RoundReceived())
+					if ea == nil {
+						for _, fe := range fa.Events {
+							h1 := fe.Core.Hex()
+							e1, err1 := n.core().Hashgraph().Store.GetEvent(h1)
+							e2, err2 := other.core().Hashgraph().Store.GetEvent(h1)
+							if err1 != nil || err2 != nil {
+								continue
+							}
+							r1, _ := n.core().Hashgraph().SimRoundOf(h1)
+							r2, _ := other.core().Hashgraph().SimRoundOf(h1)
+							if r1 != r2 {
+								de := c.dag.events[h1]
+								fmt.Fprintf(os.Stderr, "  DIVERGE event %s (n%d#%d) round %d at node %d (ff=%v lb=%d), %d at node %d; parents:", short(h1), c.byPub[de.Creator].idx, de.Index, r1, n.idx, n.ffDone, n.core().Hashgraph().SimRoundLowerBound(), r2, other.idx)
+								for _, p := range []string{e1.SelfParent(), e1.OtherParent()} {
+									pr1, perr1 := n.core().Hashgraph().SimRoundOf(p)
+									pr2, _ := other.core().Hashgraph().SimRoundOf(p)
+									dp := c.dag.events[p]
+									if dp != nil {
+										fmt.Fprintf(os.Stderr, " n%d#%d: %d(%v)/%d", c.byPub[dp.Creator].idx, dp.Index, pr1, perr1, pr2)
+									}
+								}
+								fmt.Fprintf(os.Stderr, "\n")
+								_ = e2
+								pr := r2 - 1
+								if ri, err := other.core().Hashgraph().Store.GetRound(pr); err == nil {
+									for _, w := range ri.Witnesses() {
+										dw := c.dag.events[w]
+										ew, errw := n.core().Hashgraph().Store.GetEvent(w)
+										rn, wn := -9, false
+										fd := 0
+										if errw == nil {
+											rn, _ = n.core().Hashgraph().SimRoundOf(w)
+											wn, _ = n.core().Hashgraph().SimWitness(w)
+											fd = len(ew.SimFirstDescendants())
+										}
+										ewo, _ := other.core().Hashgraph().Store.GetEvent(w)
+										fdo := 0
+										if ewo != nil {
+											fdo = len(ewo.SimFirstDescendants())
+										}
+										if dw != nil {
+											fmt.Fprintf(os.Stderr, "     round %d witness n%d#%d: at node %d present=%v round=%d witness=%v firstDescendants=%d (other node: %d)\n", pr, c.byPub[dw.Creator].idx, dw.Index, n.idx, errw == nil, rn, wn, fd, fdo)
+										}
+									}
+								}
+								break
+							}
+						}
+					}
+				}
+			}
 			key := "block-divergence"
 			if c.lateSetChangeSeen {
 				key = "set-change-in-force-at-a-round-that-already-has-events"
